@@ -58,7 +58,7 @@ REQUIRED_FEATURES = {
     "partA-done": 1, "partB-done": 1,
 }
 BUDGET = {
-    "quick": {"cases": 2_000_000, "seconds": 36},
+    "quick": {"cases": 2_000_000, "seconds": 30},
     "thorough": {"cases": 40_000_000, "seconds": 480},
 }
 EXHAUSTIVE_WHOLE = False  # sequences are enumerated exhaustively, the parameter grid only for the short ones
@@ -96,7 +96,7 @@ def make(kind):
     if kind == "fail":
         return False, {"weight": 1, "unit": "ops", "success": False}
     if kind == "tuple":
-        return False, (1, "ops")
+        return False, tuple([1, "ops"])  # a fresh object per attempt
     if kind == "none":
         return False, None
     if kind == "ctimeout":
@@ -237,6 +237,7 @@ class Scripted:
 
 def observe(loop, call, delegate):
     """Runs `call` (a coroutine function) to completion on the virtual loop -> observed record."""
+    loop.now = 0.0  # nothing is pending between cases; a small clock keeps the float error of a gap far below the tolerance
     try:
         res = loop.run_until_complete(call())
         mode, obj = "return", res
@@ -579,6 +580,12 @@ def sequences_upto(n):
         yield from itertools.product(ALPHABET, repeat=length)
 
 
+def overdue(ctx):
+    """The enumerated parts are finished even when the machine is busy (they need a few CPU seconds per shard); they are only abandoned -
+    and the run reported inconclusive - at 2.5x the time budget, well before the runner's watchdog (3x + 120 s)."""
+    return ctx.time_left() < -1.5 * float(ctx.budget.get("seconds", 40))
+
+
 def run_shard(ctx):
     env = Env()
     if ctx.shard == 0:
@@ -598,7 +605,7 @@ def run_shard(ctx):
             if idx % ctx.nshards != ctx.shard:
                 continue
             mine += 1
-            if mine % 256 == 0 and ctx.time_left() <= 0:
+            if mine % 256 == 0 and overdue(ctx):
                 done = False
                 break
             params, ctor = combo_to_params(combo, drop_retries_zero=(ci % 2 == 1))
@@ -614,12 +621,12 @@ def run_shard(ctx):
     for si, seq in enumerate(sequences_upto(b_len)):
         if si % ctx.nshards != ctx.shard:
             continue
-        if (si // ctx.nshards) % 512 == 0 and ctx.time_left() <= 0:
+        if (si // ctx.nshards) % 512 == 0 and overdue(ctx):
             done = False
             break
         rng = ctx.case_rng(f"B{si}")
-        # sequences of the largest length get fewer samples in the quick tier (11^5 of them)
-        k = b_samples if len(seq) < b_len else max(1, b_samples // 3)
+        # sequences of the largest length (11^5 / 11^6 of them) get one sample each
+        k = b_samples if len(seq) < b_len else max(1, b_samples // 6)
         for j in range(k):
             params, ctor = combo_to_params(sample_combo(rng, len(seq) + 1), drop_retries_zero=rng.random() < 0.5)
             run_case(ctx, env, seq, params, ctor, durations_for(rng, len(seq) + 1), tag=("B:" + str(len(seq)) if si % 9973 == 0 and j == 0 else None))
